@@ -1,7 +1,7 @@
 (* C16 -- correspondence entry points: the implementation's recorded traces
    are checked for membership in the specified set (trace_ok), and their stage
    word is compared with the model's. *)
-From PyGql Require Import Run.Driver Spec.TraceSpec Exec.TraceModel Exec.RuntimeMachine Exec.TraceDeferred.
+From PyGql Require Import Run.Driver Spec.TraceSpec Exec.TraceModel Exec.RuntimeMachine Exec.TraceDeferred Exec.TraceLift Exec.TraceRequest.
 
 (* what ApolloTracer.payload() exposes, as far as it depends on the hooks *)
 Record tracer_obs := mkTracer {
@@ -24,7 +24,9 @@ Record req := mkReq {
   q_k : nat; q_n : nat; q_text : bool; q_class : oclass; q_mw_awaits : bool;
   q_fields : list ftree;
   q_prog : option prog;            (* the operation as a program of the C08/C09 executor machine
-                                      (deferred runtimes, no argument errors) *)
+                                      (deferred runtimes; a field whose argument coercion fails is
+                                      a synchronous resolver failure there) *)
+  q_argerr : list TraceSpec.path;  (* ... and is marked here *)
   q_drop_invoke : bool             (* asyncio: the coroutine body starts before its completion;
                                       compare without the Invoke events *)
 }.
@@ -51,15 +53,14 @@ Definition tracer_ok (q : req) (t : list event) (o : tracer_obs) : bool :=
   && Bool.eqb (tr_validation o) (reaches_validation (q_class q))
   && tr_end o.
 
-(* the executor machine (Exec/RuntimeMachine.v) run under the recorded schedule,
-   its log decorated with the field hooks (Exec/TraceDeferred.v), must predict
-   the implementation's hook / resolver events exactly *)
+(* the composed model (Exec/TraceRequest.v): the executor machine run under the
+   recorded schedule, its log decorated with the field hooks, argument errors
+   erased, lifted to k instrumentations and n middlewares -- must predict the
+   implementation's field-level events exactly *)
+Definition marked_of (l : list TraceSpec.path) : TraceSpec.path -> bool :=
+  fun p => existsb (fun q => if path_eq_dec q p then true else false) l.
 Definition is_core (drop_inv : bool) (e : event) : bool :=
-  match e with
-  | FieldStart O _ | FieldEnd O _ | Return _ | Raise _ => true
-  | Invoke _ => negb drop_inv
-  | _ => false
-  end.
+  is_field e && match e with Invoke _ => negb drop_inv | _ => true end.
 Definition machine_ok (q : req) (r : run_obs) : bool :=
   match q_prog q with
   | None => true
@@ -68,7 +69,8 @@ Definition machine_ok (q : req) (r : run_obs) : bool :=
       | Some st =>
           (match pending (ms st) with [] => true | _ => false end)
           && (if word_eq_dec (filter (is_core (q_drop_invoke q)) (r_trace r))
-                             (filter (is_core (q_drop_invoke q)) (decorate (recs_prog pr) (log (ms st))))
+                             (filter (is_core (q_drop_invoke q))
+                                     (deferred_fields (q_k q) (q_n q) (q_mw_awaits q) (marked_of (q_argerr q)) pr st))
               then true else false)
       | None => false
       end
@@ -93,7 +95,7 @@ Definition machine_agree_C16 (c : case_C16) : bool := forallb (machine_ok (fst c
 
 (* diagnostics: per run, which parts fail (1 stage word, 2 nesting in execution,
    3 unknown field path, 4 per-field word, 5 parent order, 6 stage word vs model,
-   7 data presence, 8 tracer, 9 executor machine + decoration under the same schedule) *)
+   7 data presence, 8 tracer, 9 composed deferred model under the same schedule) *)
 Local Open Scope N_scope.
 Definition diag_run (q : req) (r : run_obs) : list N :=
   let c := cfg_of q in let t := r_trace r in
